@@ -209,19 +209,43 @@ def m_index(E, st, fid, t, args, dest_ty):
         if not z.sat:
             return out
         st.log('slice', mid, start, end)
+        if st.pairs:
+            st.log('pairs', tuple((k, E.pairs_complete(st, k), st.pairs.get(k), '') for k in st.pairs))
         st.maps[mid].examined = None     # a new pass over the slots begins: earlier partial scans are void
         out.append(('ret', st, ('ref', mut, ('slice', mid, start, end))))
         return out
     # opaque array / slice of user data
     out = escape(E, st, 'core', 'index out of range')
     tag = E.tag_of(base)
+    bv = E.peek(st, base[2]) if base[0] == 'ref' else base
     oid = st.new_id('o')
     ln = fresh('u')
     st.zone.touch(ln)
     if rng[0] == 'adt' and rng[1] == RANGE_TO and rng[3][0][0] == 'int':
         st.zone.add_eq(ln, rng[3][0][1])
     if rng[0] == 'adt' and rng[1] in (RANGE_TO, RANGE, RANGE_FROM, RANGE_FULL):
-        st.objs[oid] = ('oslice', tag, ln)
+        b = _range_bounds(E, st, rng, 0, 0)
+        tracked = None
+        if bv[0] == 'oarr':
+            tracked = (bv[1], 0, bv[2])
+        elif bv[0] == 'oslice' and len(bv) == 5:
+            tracked = (bv[1], bv[3], bv[4])
+        if tracked is not None and b is not None and b[0] is not None and b[1] is not None:
+            btag, lo0, hi0 = tracked
+            s_rel, e_rel = b
+            lo = E.add_terms(st, lo0, s_rel) if not (isinstance(s_rel, int) and s_rel == 0) else lo0
+            hi = hi0 if e_rel == 'END' else (E.add_terms(st, lo0, e_rel) if not (isinstance(lo0, int) and lo0 == 0) else e_rel)
+            st.zone.add_le(lo, hi)
+            st.zone.add_le(hi, hi0)
+            if not st.zone.sat:
+                return out
+            if isinstance(lo, int) and lo == 0:
+                st.zone.add_eq(ln, hi)
+            else:
+                st.zone.add_le(ln, hi)
+            st.objs[oid] = ('oslice', btag, ln, lo, hi)
+        else:
+            st.objs[oid] = ('oslice', tag, ln)
         out.append(('ret', st, ('ref', mut, ('O', oid, ()))))
     else:
         out.append(('ret', st, ('ref', mut, ('opq', tag + ('[]',)))))
@@ -261,6 +285,11 @@ def m_iter(E, st, fid, t, args, dest_ty):
     if dest_ty and dest_ty.get('k') == 'adt' and dest_ty['args']:
         e = dest_ty['args'][0]
         ety = {'k': 'ref', 'mut': 'mut' in t['callee']['name'], 'to': e}
+    bv = E.peek(st, args[0][2]) if args[0][0] == 'ref' else args[0]
+    if bv[0] == 'oarr':
+        return ret(st, ('opqit', bv[1], freeze(ety), 0, bv[2]))
+    if bv[0] == 'oslice' and len(bv) == 5:
+        return ret(st, ('opqit', bv[1], freeze(ety), bv[3], bv[4]))
     return ret(st, ('opqit', E.tag_of(args[0]), freeze(ety)))
 
 
@@ -314,6 +343,8 @@ def m_get_unchecked(E, st, fid, t, args, dest_ty):
                 sample='%s < %s' % (idx, hi))
         z.add_lt(idx, hi)
     st.log('at', mid, idx)
+    if st.pairs:
+        st.log('pairs', tuple((k, E.pairs_complete(st, k), st.pairs.get(k), '') for k in st.pairs))
     return ret(st, ('ref', mut, ('mu', mid, idx)))
 
 
